@@ -66,6 +66,7 @@ type FuncContract struct {
 	Where    string
 	Uses     []string // lemmas to instantiate (as assumptions) everywhere in this function
 	SlotOf   map[string]string // call through local var -> slot name
+	LocalAlias map[string]LocalAlias // name a contract uses for a local -> how to find it if it was renamed
 	Trusted  bool
 	NoReturn bool
 	Bounded  int
@@ -120,6 +121,12 @@ type ConstCheck struct {
 	Src   string
 	Where string
 	Pkg   string
+}
+
+// LocalAlias: the k-th named local (or captured variable) of the given type, in source order.
+type LocalAlias struct {
+	Type string
+	Ord  int
 }
 
 type GlobalInv struct {
@@ -206,7 +213,7 @@ func stripComment(s string) string {
 	return s
 }
 
-var kwRe = regexp.MustCompile(`^\s*(group|func|extern|slot|requires|ensures|modifies|invariant|history|loop|ghostinit|ghost|pure|lemma|axiom|const|global|assert|mode|maypanic|noinv|use|callslot|trusted|bounded|pkg|end|implements|macro|promise|noreturn)\b`)
+var kwRe = regexp.MustCompile(`^\s*(group|func|extern|slot|requires|ensures|modifies|invariant|history|loop|ghostinit|ghost|pure|lemma|axiom|const|global|assert|mode|maypanic|noinv|use|callslot|trusted|bounded|pkg|end|implements|macro|promise|noreturn|local)\b`)
 
 var labelRe = regexp.MustCompile(`^\s*([A-Za-z_][A-Za-z0-9_]*)\s*:\s*(.*)$`)
 var propsRe = regexp.MustCompile(`^\s*\[([A-Z0-9, ]+)\]\s*(.*)$`)
@@ -371,6 +378,23 @@ func (c *Contracts) LoadFile(path string) error {
 			for _, n := range strings.Fields(strings.ReplaceAll(rest, ",", " ")) {
 				cur.Uses = append(cur.Uses, n)
 			}
+		case "local":
+			// local <name> <ordinal> <type...>   (generated by `govc locals`; fallback when the local was renamed)
+			if cur == nil {
+				return fail(l, "local outside func")
+			}
+			fs := strings.Fields(rest)
+			if len(fs) < 3 {
+				return fail(l, "local <name> <ordinal> <type>")
+			}
+			n, err := strconv.Atoi(fs[1])
+			if err != nil {
+				return fail(l, "local <name> <ordinal> <type>")
+			}
+			if cur.LocalAlias == nil {
+				cur.LocalAlias = map[string]LocalAlias{}
+			}
+			cur.LocalAlias[fs[0]] = LocalAlias{Type: strings.Join(fs[2:], " "), Ord: n}
 		case "callslot":
 			// callslot <localvar> <slotname>
 			fs := strings.Fields(rest)
